@@ -50,7 +50,9 @@ def exe(which):
 def fi_env():
     return {
         "ASAN_OPTIONS": "halt_on_error=0:detect_leaks=1:allocator_may_return_null=1:handle_abort=1:print_summary=1:"
-                        "symbolize=1:detect_stack_use_after_return=0:malloc_context_size=12",
+                        "symbolize=0:detect_stack_use_after_return=0:malloc_context_size=12",
+        # (ASan and UBSan share one runtime: symbolize=0 applies to both; reports are symbolized offline, in one
+        # addr2line call per batch, instead of one llvm-symbolizer process per crashing child)
         "UBSAN_OPTIONS": "print_stacktrace=0:halt_on_error=0:symbolize=0",
         "LSAN_OPTIONS": "print_suppressions=0",
         "ASAN_SYMBOLIZER_PATH": "/usr/bin/llvm-symbolizer-14",
@@ -92,6 +94,55 @@ def symbolize(path, addrs):
     return out
 
 
+_raw_frame = re.compile(r"^(\s*#(\d+) 0x([0-9a-f]+))\s+\((\S+?)\+0x[0-9a-f]+\).*$", re.M)
+
+
+def symbolize_reports(path, texts):
+    """Rewrite the unsymbolized sanitizer stack frames of the executable `path` in every text as
+    `#N 0xADDR in FUNCTION FILE:LINE` (the form lib/vf/sanlog.py parses)."""
+    want = set()
+    for t in texts:
+        for m in _raw_frame.finditer(t):
+            if m.group(4) == path:
+                a = int(m.group(3), 16)
+                want.add("%x" % (a + 1 if m.group(2) == "0" else a))  # symbolize() looks up addr-1
+    if not want:
+        return texts
+    inp = "\n".join(hex(int(a, 16) - 1) for a in sorted(want)) + "\n"
+    r = subprocess.run(["addr2line", "-f", "-i", "-a", "-e", path], input=inp, stdout=subprocess.PIPE,
+                       stderr=subprocess.DEVNULL, text=True)
+    table = {}
+    cur = None
+    lines = r.stdout.split("\n")
+    i = 0
+    order = []
+    while i < len(lines):
+        ln = lines[i]
+        if ln.startswith("0x"):
+            cur = []
+            order.append(cur)
+            i += 1
+        elif cur is not None and ln and i + 1 < len(lines):
+            cur.append((ln.strip(), lines[i + 1].strip()))
+            i += 2
+        else:
+            i += 1
+    for a, fr in zip(sorted(want), order):
+        table[a] = fr
+
+    def rep(m):
+        if m.group(4) != path:
+            return m.group(0)
+        a = int(m.group(3), 16)
+        fr = table.get("%x" % (a + 1 if m.group(2) == "0" else a))
+        if not fr:
+            return m.group(0)
+        # innermost inlined function first: one line per inlined frame, as llvm-symbolizer prints them
+        return "\n".join("%s in %s %s" % (m.group(1), fn, loc) for fn, loc in fr)
+
+    return [_raw_frame.sub(rep, t) for t in texts]
+
+
 def run_sites(which, prefix, opts):
     """-> (events, info dict).  Raises HarnessError when run 0 itself misbehaves."""
     x = exe(which)
@@ -128,8 +179,8 @@ def run_sites(which, prefix, opts):
         for a in fr:
             if len(a) > 8:
                 break
-            names = sym.get(a, ["??"])
-            if names[0].startswith("__wrap_") or names[-1].startswith("__wrap_"):
+            names = [n for n in sym.get(a, ["??"]) if not n.startswith("__wrap_") and n != "fi_event"]
+            if not names:
                 continue
             chain.append(a)
             fns.extend(names)
@@ -150,7 +201,7 @@ def run_sites(which, prefix, opts):
         sa = None
         j = 0
         for a in chain:
-            names = sym.get(a, ["??"])
+            names = [n for n in sym.get(a, ["??"]) if not n.startswith("__wrap_")]
             if not all(n in GENERIC for n in names):
                 sa = a
                 break
@@ -197,17 +248,24 @@ def plan(events, tier, rng, scale=1.0, which="enc"):
     for key, lst in osinit.items():
         ks.update(pick3(lst))
     if tier == "quick":
-        budget = int((420 if which == "enc" else 260) * scale)
+        budget = int((300 if which == "enc" else 200) * scale)
+        by_fn = occurrences([e for e in events if e.kind not in OSINIT], lambda e: (e.phase, e.site_fn))
+        # every (API, call-site function) at its first, middle and last occurrence ...
+        for key, lst in by_fn.items():
+            ks.update(pick3(lst))
+        # ... then one seeded occurrence (first|middle|last) of further distinct call-site addresses up to the budget
         sites = list(by_site.items())
-        # every site once (occurrence drawn from {first, middle, last}), then all three for as many as fit
-        for key, lst in sites:
-            ks.add(rng.choice(pick3(lst)))
         rng.shuffle(sites)
         for key, lst in sites:
             if len(ks) >= budget:
                 break
-            ks.update(pick3(lst))
-        d["rule"] = "every distinct call site once (first|middle|last occurrence drawn by seed), all three for a seeded subset"
+            ks.add(rng.choice(pick3(lst)))
+        covered = sum(1 for key, lst in by_site.items() if ks.intersection(lst))
+        d["call_sites_covered"] = covered
+        d["site_functions"] = len(by_fn)
+        d["rule"] = ("every (API, call-site function) x {first, middle, last occurrence}; then one seeded occurrence of "
+                     "further distinct call-site addresses up to %d runs (%d of %d call-site addresses covered)"
+                     % (budget, covered, len(by_site)))
     elif tier == "thorough":
         for key, lst in by_chain.items():
             ks.update(pick3(lst))
@@ -262,6 +320,9 @@ def run_ks(which, prefix, ks, opts, workers):
                 os.unlink(p + ext)
             except OSError:
                 pass
+        ks_ = [k for k in out if out[k]["err"]]
+        for k, t in zip(ks_, symbolize_reports(x, [out[k]["err"] for k in ks_])):
+            out[k]["err"] = t
         return out
 
     res = {}
@@ -395,6 +456,7 @@ def explore(chk, which, tier, opts, workers, ks_override=None, scale=1.0):
         "events": len(events), "per_api": {API[which][p]: n for p, n in sorted(per_phase.items())},
         "per_kind": dict(per_kind), "distinct_call_sites": d.get("distinct_call_sites"),
         "distinct_call_chains": d.get("distinct_call_chains"), "deterministic_over_2_runs": True,
+        "call_sites_covered": d.get("call_sites_covered"), "site_functions": d.get("site_functions"),
         "selection_rule": d.get("rule")}
     res = run_ks(which, prefix, ks, opts, workers)
     # inconclusive (hard timeout / lost) cases are re-run once
@@ -433,6 +495,12 @@ def explore(chk, which, tier, opts, workers, ks_override=None, scale=1.0):
             chk.violation(key, what, {"which": which, "k": k, "opts": opts, "site": e.site_fn,
                                       "chain": list(e.chain_fns[:8]), "progress": r.get("progress", "")},
                           name="%s-%s" % (which, core.sha(key)))
+    if chk.tier == "campaign":
+        raw = os.path.join(core.OUT, "c16_campaign_raw_%s_%d.json" % (which, os.getpid()))
+        json.dump({"results": {str(k): res[k] for k in res},
+                   "events": {str(k): [byk[k].phase, byk[k].kind, byk[k].site_fn, list(byk[k].chain_fns[:8])] for k in ks}},
+                  open(raw, "w"))
+        print("raw campaign results: " + raw)
     chk.extra.setdefault("outcomes", {})[which] = dict(outcomes)
     chk.extra.setdefault("enumerated", {})[which] = {
         "k_run": len(ks), "k_total": len(events), "fraction": round(len(ks) / max(1, len(events)), 4),
